@@ -278,6 +278,48 @@ def build(tier="quick", seed=0):
 
         pack.add(Obligation(name, run, replay=lambda w: {"call": "c09_hostile", "args": w}, functions=FU))
 
+    # ---- attribute chains on typed matchers: `Type.<type>.<method>` names a method, it must never be invoked (no Call node is involved) ------------
+    for e in ["Type.string.upper == 'ABC'", "Type.string.lower == 'abc'", "'ABC' in Type.string.upper", "Type.string.isalpha == True", "Type.string.encode == b'abc'", "Type.varint.bit_length == 3", "Type.string.strip == 'abc'"]:
+        name = f"C09.typeattr[{e}]"
+
+        def run(tier, e=e, name=name):
+            def th():
+                rec = mkrec()
+                before = snapshot(rec)
+                s = it.call(sel.g["Selector"], [e], {})
+                try:
+                    out = ("val", it.truth(it.call(it.getattr_(s, "match"), [rec], {})))
+                except PyRaise as ex:
+                    out = ("raise", ex.cls_name)
+                same = all(k1 == k2 and (v1 is v2 or v1 == v2) for (k1, v1), (k2, v2) in zip(before, snapshot(rec)))
+                return out, same
+
+            return prove_paths(name, th, lambda p: (p.value[1] and not (p.value[0][0] == "val" and p.value[0][1] is True), f"{e!r}: evaluated to {p.value[0]!r} - the method named by the attribute chain was invoked (record unchanged: {p.value[1]})"),
+                               lambda m, p: {"expr": e, "genvar": None, "typeattr": True})
+
+        pack.add(Obligation(name, run, replay=lambda w: {"call": "c09_hostile", "args": w}, functions=FU))
+
+    # ---- closure over node kinds: every expression node class outside the documented language is refused (a new node kind is a new evaluation rule to audit) --------
+    NODE_SAMPLES = {"JoinedStr": "f'{r.s}' == 'abc'", "FormattedValue": "f\"{r.s:{'}{0.__class__'}}\" == 'x'", "Lambda": "(lambda: r.s)", "IfExp": "r.s if r.n else r.n", "Dict": "{'a': r.s}", "Set": "{r.s}", "ListComp": "[x for x in r.tags]",
+                    "SetComp": "{x for x in r.tags}", "DictComp": "{x: 1 for x in r.tags}", "Subscript": "r.tags[0]", "Slice": "r.s[0:1]", "Starred": "[*r.tags]", "NamedExpr": "(y := r.s)", "Await": None, "Yield": None, "YieldFrom": None}
+    for kind, src in NODE_SAMPLES.items():
+        if src is None:
+            continue
+        name = f"C09.nodekind[{kind}]"
+
+        def run(tier, src=src, name=name, kind=kind):
+            def th():
+                rec = mkrec()
+                s = it.call(sel.g["Selector"], [src], {})
+                try:
+                    return ("val", it.call(it.getattr_(s, "match"), [rec], {}))
+                except PyRaise as ex:
+                    return ("raise", ex.cls_name)
+
+            return prove_paths(name, th, lambda p: (p.value[0] == "raise", f"an expression with a {kind} node ({src!r}) is evaluated to {p.value[1]!r} instead of being refused"), lambda m, p: {"expr": src, "genvar": None, "refuse": True})
+
+        pack.add(Obligation(name, run, replay=lambda w: {"call": "c09_hostile", "args": w}, functions=FU, mode="one representative per expression node class outside the documented language"))
+
     # ---- benign evaluation does not modify the record (frame) -------------------------------------------------------------------------------
     for e in ["r.n == 5 and 'a' in r.tags", "any(t == 'a' for t in r.tags)", "upper(r.s) == 'ABC' or names(r)", "field_contains(r, ['s'], ['b'])", "str(r.tags) == repr(r.tags)", "Type.string == 'abc'", "string(r.s) == r.s", "r.tags == ['a', 'b']"]:
         name = f"C09.frame[{e}]"
